@@ -96,7 +96,7 @@ pub fn extreme_cells() -> Vec<Cell> {
             v.push(Cell::new(Fam::Zipf, ft, &[n, s]));
         }
         // Zipf: every combination of extreme n and extreme s the constructor accepts (s = +inf included)
-        for &n in &[1.0, 2.0, 3.0, 10.0, 1e6, mx / 4.0, f64::INFINITY] {
+        for &n in &[1.0, 2.0, 3.0, 10.0, 1e6, mx / 4.0, mx / 2.0, mx, f64::INFINITY] {
             for &s in &[0.0, mn, 1e-10, 0.5, 1.0, 1.0 + 1e-6, 2.0, 100.0, 1e10, mx / 4.0, f64::INFINITY] {
                 if n.is_infinite() && s <= 1.0 {
                     continue; // documented IllDefined
